@@ -63,7 +63,7 @@ var commonAssumptions = []string{
 // members of TL whose trees contain no construct C13 has a shape clause for (plain
 // text, HTML blocks, thematic breaks): `vcheck twin C13` reported them vacuous, so
 // they are not registered for C13
-var tlNoShape = map[int]bool{16: true, 17: true, 23: true, 24: true, 25: true, 35: true, 56: true}
+var tlNoShape = map[int]bool{16: true, 17: true, 23: true, 24: true, 25: true, 35: true, 56: true, 105: true, 109: true}
 
 func treeSpec(id, h, expl string, streamH string) *PropSpec {
 	p := &PropSpec{ID: id, Level: "model_checking", Explanation: expl, Assumptions: commonAssumptions, QuickSec: 170, ThoroughSec: 900}
@@ -74,7 +74,12 @@ func treeSpec(id, h, expl string, streamH string) *PropSpec {
 		}
 		p.Jobs = append(p.Jobs, j)
 	}
-	p.Jobs = append(p.Jobs, tlEOLJobs(h)...)
+	for _, j := range tlEOLJobs(h) {
+		if id == "C13" && tlNoShape[int(j.Params[1])] {
+			continue
+		}
+		p.Jobs = append(p.Jobs, j)
+	}
 	if streamH != "" {
 		p.Jobs = append(p.Jobs, JobSpec{Pkg: pkgCM, Harness: streamH, Params: []int64{0, 3}, Bound: "F(3) through the streaming entry point + Extract + Rewrite", Tier: "quick"})
 	}
@@ -418,14 +423,14 @@ func propSpecs() map[string]*PropSpec {
 	for _, i := range []int64{97, 98, 102, 108, 109, 110, 111} {
 		cm(c09, "H_C09_quote", 1, i, fmt.Sprintf("quote clause, template TL[%d]", i), "quick")
 	}
-	for _, i := range []int64{108, 109, 110} {
+	for _, i := range []int64{108, 110} { // (TL[109]: every line starts with a space - outside the bare-marker clause; twin: vacuous)
 		cm(c09, "H_C09_quote_bare", 1, i, fmt.Sprintf("quote clause with the bare marker '>', TL[%d] (whitespace-only line inside code)", i), "quick")
 	}
 	for _, i := range []int64{9, 13, 14, 20, 84, 88, 89, 108} {
 		cm(c09, "H_C09_quote", 6, i, fmt.Sprintf("quote clause, TL[%d] with CRLF line endings", i), "quick")
 		cm(c09, "H_C09_quote", 7, i, fmt.Sprintf("quote clause, TL[%d] with bare-CR line endings", i), "quick")
 	}
-	for _, i := range []int64{13, 84, 9} {
+	for _, i := range []int64{9} { // (TL[13], TL[84] contain a blank line - outside the list clause; twin: vacuous)
 		cm(c09, "H_C09_list", 7, i, fmt.Sprintf("list clause, TL[%d] with bare-CR line endings", i), "quick")
 	}
 	cm(c09, "H_C09_quote", 8, 10, "quote clause, definition + full reference with a 10-line label of 989 characters (below the 999 limit)", "quick")
